@@ -8,8 +8,8 @@ Definition inst_safe (e : eff) : bool :=
   match e with EProvDelete PNil | EProvCreate true => false | _ => true end.
 Definition node_safe (e : eff) : bool :=
   match e with ETaint _ true | ERmNodeFin _ true | EDelNode _ true => false | _ => true end.
-Definition claim_safe (e : eff) : bool :=     (* does not remove the claim object or its finalizer *)
-  match e with EDelClaim true | ERmClaimFin true => false | _ => true end.
+Definition claim_safe (e : eff) : bool :=     (* keeps the claim object, its finalizer, deletion mark, provider id *)
+  match e with EDelClaim true | ERmClaimFin true | EAddFin true | EPersist true => false | _ => true end.
 
 Lemma upd_claim_frame : forall g w,
   w_now (upd_claim g w) = w_now w /\ w_pods (upd_claim g w) = w_pods w /\ w_vas (upd_claim g w) = w_vas w /\
@@ -266,11 +266,10 @@ Lemma await_volumes_spec : forall hc i w f dl cs,
 Proof.
   intros hc i w f dl [[d v] t]. unfold await_volumes. cbv zeta.
   destruct (fails f SListVAs); [simpl; split; [reflexivity|discriminate]|].
-  match goal with |- context[if ?b then _ else _] => destruct b eqn:Elk end; [simpl; split; [reflexivity|discriminate]|].
-  match goal with |- context[filter (blocking ?sh) _] => set (sh0 := sh) end.
-  assert (Hmono : filter (blocking sh0) (vas_on i w) = [] -> pending_vas i w = []).
-  { unfold pending_vas, sh0. destruct (fails f SGetPVC) as [[| |]|]; auto. apply filter_nil_mono. }
-  destruct (filter (blocking sh0) (vas_on i w)) eqn:Ep.
+  destruct (va_lookup_err i w f); [simpl; split; [reflexivity|discriminate]|].
+  assert (Hmono : filter (blocking (va_shield i w f)) (vas_on i w) = [] -> pending_vas i w = []).
+  { unfold pending_vas, va_shield. destruct (fails f SGetPVC) as [[| |]|]; auto. apply filter_nil_mono. }
+  destruct (filter (blocking (va_shield i w f)) (vas_on i w)) eqn:Ep.
   - destruct (await_instance_spec hc f (d, (if hc then VTrue else v), t) (w_inst w)) as [Hs Hr].
     split; [exact Hs|]. intros H. destruct (Hr H) as [Hi Ha]. split; [exact Hi|]. split; [left; auto | exact Ha].
   - destruct (elapsed (w_now w) dl) eqn:Ee.
@@ -289,8 +288,8 @@ Lemma await_drain_spec : forall hc i w f dl cs,
 Proof.
   intros hc i w f dl [[d v] t]. unfold await_drain. cbv zeta.
   destruct (fails f SListPods); [simpl; split; [reflexivity|discriminate]|].
-  destruct (drain_done i w) eqn:Ed; simpl; [|split; [reflexivity|discriminate]].
-  match goal with |- context[if ?b then _ else _] => destruct b eqn:Emin end; [simpl; split; [reflexivity|discriminate]|].
+  destruct (drain_done i w) eqn:Ed; cbn [negb]; [|simpl; split; [reflexivity|discriminate]].
+  destruct (min_drain_wait hc (w_now w) _); [simpl; split; [reflexivity|discriminate]|].
   match goal with |- context[await_volumes hc i w f dl ?c] =>
     destruct (await_volumes_spec hc i w f dl c) as [Hs Hr] end.
   split; [exact Hs|]. intros H. destruct (Hr H) as (Hi & Hv & Ha). auto.
@@ -314,20 +313,11 @@ Proof.
   intros w i f oc dl cgone stale es r j H Hin. unfold node_tail in H.
   match type of H with context[await_drain ?hc i w f dl ?cs] =>
     destruct (await_drain_spec hc i w f dl cs) as [Hs Hr]; set (a := await_drain hc i w f dl cs) in * end.
-  assert (He4 : forall (e4 : list eff) (st : option res),
-    (if is_some oc && negb (conds_eqb (match oc with Some c => (c_drained c, c_vol c, c_term c) | None => (DNone, VNone, false) end) (a_conds a))
-     then let '(d, v, t) := a_conds a in
-          match status_patch_ans f cgone stale with
-          | PatchOk => ([EStatus true d v t], None)
-          | PatchNotFound => ([EStatus false d v t], None)
-          | PatchConflict => ([EStatus false d v t], Some RRequeue)
-          | PatchOther => ([EStatus false d v t], Some RErr)
-          end
-     else ([], None)) = (e4, st) -> forallb node_safe e4 = true /\ forallb inst_safe e4 = true).
-  { intros e4 st E. destruct (is_some oc && negb _) in E; [|inversion E; auto].
-    destruct (a_conds a) as [[d v] t]. destruct (status_patch_ans f cgone stale); inversion E; auto. }
   match type of H with (let '(e4, stop4) := ?X in _) = _ => destruct X as [e4 stop4] eqn:E4 end.
-  destruct (He4 _ _ E4) as [Hn4 Hi4].
+  assert (H4 : forallb node_safe e4 = true /\ forallb inst_safe e4 = true).
+  { clear - E4. destruct (is_some oc && negb _) in E4; [|inversion E4; auto].
+    destruct (a_conds a) as [[d v] t]. destruct (status_patch_ans f cgone stale); inversion E4; auto. }
+  destruct H4 as [Hn4 Hi4].
   assert (Hpre : forallb node_safe (a_effs a ++ e4) = true) by (rewrite forallb_app, Hs, Hn4; reflexivity).
   destruct stop4 as [r4|].
   { inversion H; subst. exfalso. eapply in_node_safe; eauto. }
@@ -340,3 +330,707 @@ Proof.
   split; [reflexivity|]. exists (a_effs a ++ e4). split; [rewrite app_assoc; reflexivity|].
   split; [exact Hpre|]. split; [rewrite forallb_app, Hia, Hi4; reflexivity|]. auto.
 Qed.
+
+Lemma drain_done_ext : forall i a b, w_pods a = w_pods b -> w_now a = w_now b -> drain_done i a = drain_done i b.
+Proof. intros i a b Hp Hn. unfold drain_done, pods_on. rewrite Hp, Hn. reflexivity. Qed.
+
+Lemma pending_vas_ext : forall i a b, w_pods a = w_pods b -> w_now a = w_now b -> w_vas a = w_vas b ->
+  pending_vas i a = pending_vas i b.
+Proof. intros i a b Hp Hn Hv. unfold pending_vas, shielded_pvs, vas_on, pods_on. rewrite Hp, Hn, Hv. reflexivity. Qed.
+
+Lemma elapsed_tgp : forall w wi dl, term_time (visible_claim w) = Some dl -> elapsed (w_now w) dl = true ->
+  w_now wi = w_now w -> tgp_expired_b w wi = true.
+Proof.
+  intros w wi dl Ht He Hn. unfold tgp_expired_b, term_time, visible_claim in *.
+  destruct (w_claim w) as [c|]; [|inversion Ht; subst; discriminate].
+  destruct (c_pid c) eqn:Ep; [|inversion Ht; subst; discriminate].
+  destruct (c_annot c); inversion Ht; subst; simpl in *; try discriminate. rewrite Hn. exact He.
+Qed.
+
+(* what holds in the world of every successful finalizer-removing patch of the node controller *)
+Definition node_gate (w wi : world) (i : Z) : Prop :=
+  exists n', get_node i (w_nodes wi) = Some n' /\
+    ((n_taint n' = true /\ drain_done i wi = true /\
+      (pending_vas i wi = [] \/ tgp_expired_b w wi = true) /\
+      (is_some (visible_claim w) = true -> inst_absent (w_inst wi) = true))
+     \/ (n_ready n' = false /\ inst_absent (w_inst wi) = true)).
+
+Lemma node_finalize_rm : forall w n f es r j,
+  node_finalize w n f = (es, r) -> get_node (n_id n) (w_nodes w) = Some n -> In (ERmNodeFin j true) es ->
+  j = n_id n /\ exists pre, es = pre ++ [ERmNodeFin (n_id n) true] /\
+    node_gate w (apply_effs w pre) (n_id n).
+Proof.
+  intros w n f es r j H Hget Hin. unfold node_finalize in H. cbv zeta in H.
+  destruct (fails f SListClaims); [inversion H; subst; contradiction|].
+  destruct (del_claim_step (visible_claim w) f) as [[[e1 stop1] stale] cgone] eqn:E1.
+  assert (H1 : forallb node_safe e1 = true /\ forallb inst_safe e1 = true).
+  { clear - E1. unfold del_claim_step in E1. destruct (visible_claim w) as [c|]; [|inversion E1; auto].
+    destruct (is_some (c_del c)); [inversion E1; auto|].
+    destruct (fails f SDelClaim) as [[| |]|]; inversion E1; auto. }
+  destruct H1 as [Hn1 Hi1].
+  destruct stop1; [inversion H; subst; exfalso; eapply in_node_safe; eauto|].
+  destruct (not_ready_step n (w_inst w) f) as [e2 short] eqn:E2.
+  assert (H2 : forallb node_safe e2 = true /\ forallb inst_safe e2 = true /\
+               (short = Some true -> n_ready n = false /\ inst_absent (w_inst w) = true)).
+  { clear - E2. unfold not_ready_step in E2. destruct (n_ready n); [inversion E2; repeat split; auto; discriminate|].
+    destruct (fails f SProvGet); [inversion E2; repeat split; auto; discriminate|].
+    unfold prov_get in E2. destruct (inst_absent (w_inst w)) eqn:Ea; inversion E2; repeat split; auto; discriminate. }
+  destruct H2 as (Hn2 & Hi2 & Hshort).
+  assert (Hn12 : forallb node_safe (e1 ++ e2) = true) by (rewrite forallb_app, Hn1, Hn2; reflexivity).
+  assert (Hi12 : forallb inst_safe (e1 ++ e2) = true) by (rewrite forallb_app, Hi1, Hi2; reflexivity).
+  destruct short as [[|]|].
+  - (* not Ready and the provider says NotFound *)
+    destruct (rm_node_fin (n_id n) f) as [e r'] eqn:Erm. inversion H; subst. clear H.
+    apply in_app3 in Hin; [|eapply in_node_safe; eauto].
+    apply rm_node_fin_shape in Erm. destruct Erm as [Erm|Erm]; subst e; simpl in Hin; destruct Hin as [Hin|[]]; inversion Hin; subst.
+    split; [reflexivity|]. exists (e1 ++ e2). split; [reflexivity|].
+    destruct (Hshort eq_refl) as [Hr Ha]. exists n. split.
+    + rewrite apply_effs_nodes by exact Hn12. exact Hget.
+    + right. split; [exact Hr|]. rewrite apply_effs_inst by exact Hi12. exact Ha.
+  - inversion H; subst. exfalso. eapply in_node_safe; eauto.
+  - destruct (term_time (visible_claim w)) as [dl|] eqn:Et; [|inversion H; subst; exfalso; eapply in_node_safe; eauto].
+    destruct (taint_step n f) as [e3 stop3] eqn:E3.
+    assert (H3 : stop3 = None -> (e3 = [] /\ n_taint n = true) \/ e3 = [ETaint (n_id n) true]).
+    { clear - E3. unfold taint_step in E3. intros ->. destruct (n_taint n && n_lbl n) eqn:Etl.
+      - inversion E3. left. apply andb_prop in Etl. destruct Etl. auto.
+      - destruct (fails f STaint) as [[| |]|]; inversion E3. right. reflexivity. }
+    destruct stop3 as [r3|].
+    { inversion H; subst. exfalso. apply in_app3 in Hin; [|eapply in_node_safe; eauto].
+      clear - E3 Hin. unfold taint_step in E3. destruct (n_taint n && n_lbl n); [inversion E3; subst; contradiction|].
+      destruct (fails f STaint) as [[| |]|]; inversion E3; subst; simpl in Hin; destruct Hin as [X|[]]; discriminate. }
+    specialize (H3 eq_refl).
+    destruct (node_tail w (n_id n) f (visible_claim w) dl cgone stale) as [et rt] eqn:Etail.
+    inversion H; subst. clear H.
+    apply in_app3 in Hin; [|eapply in_node_safe; eauto].
+    assert (Hin' : In (ERmNodeFin j true) et).
+    { apply in_app3 in Hin; [exact Hin|]. destruct H3 as [[-> _]| ->]; simpl; [tauto|]. intros [X|[]]; discriminate. }
+    destruct (node_tail_rm _ _ _ _ _ _ _ _ _ _ Etail Hin') as (Hj & p & Hp & Hnp & Hip & Hd & Hv & Hc).
+    split; [exact Hj|]. subst et. exists ((e1 ++ e2) ++ e3 ++ p).
+    split; [rewrite <- !app_assoc; reflexivity|].
+    set (wi := apply_effs w ((e1 ++ e2) ++ e3 ++ p)).
+    destruct (apply_effs_frame ((e1 ++ e2) ++ e3 ++ p) w) as (Fnow & Fpods & Fvas). fold wi in Fnow, Fpods, Fvas.
+    assert (Finst : w_inst wi = w_inst w).
+    { unfold wi. apply apply_effs_inst. rewrite !forallb_app, Hi1, Hi2, Hip.
+      destruct H3 as [[-> _]| ->]; reflexivity. }
+    assert (Fnode : exists n', get_node (n_id n) (w_nodes wi) = Some n' /\ n_taint n' = true).
+    { assert (G : get_node (n_id n) (w_nodes (apply_effs w (e1 ++ e2))) = Some n)
+        by (rewrite apply_effs_nodes by exact Hn12; exact Hget).
+      unfold wi. rewrite (apply_effs_app (e1 ++ e2) (e3 ++ p)). rewrite (apply_effs_app e3 p).
+      rewrite (apply_effs_nodes p) by exact Hnp.
+      destruct H3 as [[-> Ht]| ->].
+      - exists n. split; [exact G|exact Ht].
+      - destruct (taint_applied _ _ _ G) as (n' & G' & Ht & _). exists n'. split; [exact G'|exact Ht]. }
+    destruct Fnode as (n' & Gn & Ht). exists n'. split; [exact Gn|]. left.
+    split; [exact Ht|]. split; [rewrite (drain_done_ext _ wi w) by assumption; exact Hd|].
+    split.
+    + rewrite (pending_vas_ext _ wi w) by assumption.
+      destruct Hv as [Hv|Hv]; [left; exact Hv | right; exact (elapsed_tgp w wi dl Et Hv Fnow)].
+    + intros Hhc. rewrite Finst. exact (Hc Hhc).
+Qed.
+
+Lemma node_gate_claim : forall w wi i, node_gate w wi i -> node_has_claim w -> node_fin_ok w wi i.
+Proof.
+  intros w wi i (n & G & H) Hc. apply node_fin_ok_b_spec. unfold node_fin_ok_b. rewrite G.
+  apply node_has_claim_b_spec in Hc. unfold node_has_claim_b in Hc.
+  destruct H as [(Ht & Hd & Hv & Hi)|(Hr & Hi)].
+  - apply orb_true_iff. left. rewrite Ht, Hd, (Hi Hc). simpl. rewrite andb_true_r.
+    destruct Hv as [Hv|Hv]; [rewrite Hv; reflexivity | rewrite Hv; apply orb_true_r].
+  - apply orb_true_iff. right. rewrite Hr, Hi. reflexivity.
+Qed.
+
+Lemma instant_last : forall w pre e, instant w (pre ++ [e]) = apply_effs w pre.
+Proof. intros. unfold instant. rewrite removelast_last. reflexivity. Qed.
+
+Lemma node_reconcile_rm : forall w i f es r j,
+  node_reconcile w i f = (es, r) -> In (ERmNodeFin j true) es ->
+  j = i /\ (exists pre, es = pre ++ [ERmNodeFin i true]) /\ node_gate w (instant w es) i.
+Proof.
+  intros w i f es r j H Hin. unfold node_reconcile in H.
+  destruct (get_node i (w_nodes w)) as [n|] eqn:G; [|inversion H; subst; contradiction].
+  destruct (n_del n && n_fin n && n_managed n); [|inversion H; subst; contradiction].
+  pose proof (get_node_id _ _ _ G) as Hid. subst i.
+  destruct (node_finalize_rm _ _ _ _ _ _ H G Hin) as (Hj & pre & Hes & Hg).
+  split; [exact Hj|]. split; [exists pre; exact Hes|]. subst es. rewrite instant_last. exact Hg.
+Qed.
+
+(* the node finalizer is removed only by a reconcile of that node, as its last write, and only if ... *)
+Lemma node_finalizer_removed_only_if_l : forall w i f es r j,
+  node_reconcile w i f = (es, r) -> In (ERmNodeFin j true) es ->
+  j = i /\ (exists pre, es = pre ++ [ERmNodeFin i true]) /\
+  (node_has_claim w -> node_fin_ok w (instant w es) i).
+Proof.
+  intros w i f es r j H Hin. destruct (node_reconcile_rm _ _ _ _ _ _ H Hin) as (Hj & Hp & Hg).
+  split; [exact Hj|]. split; [exact Hp|]. intros Hc. exact (node_gate_claim _ _ _ Hg Hc).
+Qed.
+
+(* without a NodeClaim: cordoned, drained, attachments gone (or the not-ready shortcut) *)
+Lemma node_finalizer_claimless_l : forall w i f es r j,
+  node_reconcile w i f = (es, r) -> In (ERmNodeFin j true) es ->
+  exists n, get_node i (w_nodes (instant w es)) = Some n /\
+    ((n_taint n = true /\
+      (forall p, In p (w_pods (instant w es)) -> p_node p = i -> can_drain p -> stuck_terminating (w_now (instant w es)) p) /\
+      ((forall v, In v (w_vas (instant w es)) -> ~ va_blocks (instant w es) i v) \/ tgp_expired w (instant w es)))
+     \/ (n_ready n = false /\ inst_absent (w_inst (instant w es)) = true)).
+Proof.
+  intros w i f es r j H Hin. destruct (node_reconcile_rm _ _ _ _ _ _ H Hin) as (_ & _ & n & G & Hg).
+  exists n. split; [exact G|]. destruct Hg as [(Ht & Hd & Hv & _)|Hs]; [left|right; exact Hs].
+  split; [exact Ht|]. split; [apply drain_done_spec; exact Hd|].
+  destruct Hv as [Hv|Hv]; [left; apply pending_none_spec; exact Hv | right; apply tgp_expired_spec; exact Hv].
+Qed.
+
+(* ------------------------------------------------------------------ NodeClaim lifecycle: the finalizer *)
+
+(* the claim object up to the fields that no claim_safe write changes *)
+Definition claim_sim (a b : option claim) : Prop :=
+  match a, b with
+  | Some x, Some y => c_registered x = c_registered y /\ c_pid x = c_pid y /\ c_del x = c_del y /\ c_fin x = c_fin y
+  | None, None => True
+  | _, _ => False
+  end.
+
+Lemma claim_sim_refl : forall a, claim_sim a a.
+Proof. intros [c|]; simpl; auto. Qed.
+
+Lemma claim_sim_trans : forall a b c, claim_sim a b -> claim_sim b c -> claim_sim a c.
+Proof.
+  intros [a|] [b|] [c|]; simpl; try tauto. intros (h1 & h2 & h3 & h4) (g1 & g2 & g3 & g4).
+  repeat split; congruence.
+Qed.
+
+Lemma apply_eff_claim : forall e w, claim_safe e = true -> claim_sim (w_claim w) (w_claim (apply_eff w e)).
+Proof.
+  intros e w H. destruct e as [ok|a|i ok|a|ok d v t|i ok|ok t|i ok|ok|ok|ok|ok]; simpl in *;
+    try destruct ok; try destruct a; simpl in *; try discriminate; try apply claim_sim_refl;
+    try (match goal with |- context[upd_node ?i ?g w] => destruct (upd_node_frame i g w) as (_&_&_&_&X&_); rewrite X; apply claim_sim_refl end; fail);
+    unfold upd_claim; simpl; destruct (w_claim w); simpl; auto.
+Qed.
+
+Lemma apply_effs_claim : forall es w, forallb claim_safe es = true -> claim_sim (w_claim w) (w_claim (apply_effs w es)).
+Proof.
+  induction es as [|e es IH]; intros w H; simpl in *; [apply claim_sim_refl|].
+  apply andb_prop in H. destruct H as [H1 H2]. unfold apply_effs in *. simpl.
+  eapply claim_sim_trans; [apply apply_eff_claim; exact H1 | apply IH; exact H2].
+Qed.
+
+Lemma rm_claim_fin_shape : forall f e r, rm_claim_fin f = (e, r) -> e = [ERmClaimFin true] \/ e = [ERmClaimFin false].
+Proof. intros f e r H. unfold rm_claim_fin in H. destruct (fails f SRmClaimFin) as [[| |]|]; inversion H; auto. Qed.
+
+Definition no_rm (e : eff) : bool := match e with ERmClaimFin true => false | _ => true end.
+
+Lemma in_no_rm : forall es, forallb no_rm es = true -> ~ In (ERmClaimFin true) es.
+Proof. intros es H Hin. rewrite forallb_forall in H. specialize (H _ Hin). discriminate. Qed.
+
+Lemma delete_nodes_no_rm : forall f ns, forallb no_rm (fst (delete_nodes f ns)) = true.
+Proof.
+  intros f ns. induction ns as [|n ns IH]; simpl; [reflexivity|].
+  destruct (n_del n); [exact IH|].
+  destruct (fails f (SDelNode (n_id n))) as [[| |]|]; try reflexivity;
+    destruct (delete_nodes f ns) as [e b]; simpl in *; exact IH.
+Qed.
+
+(* all four frame properties of a list of writes at once *)
+Definition quiet (e : eff) : bool := claim_safe e && inst_safe e && node_safe e && no_rm e.
+
+Lemma quiet_forall : forall es, forallb quiet es = true ->
+  forallb claim_safe es = true /\ forallb inst_safe es = true /\ forallb node_safe es = true /\ forallb no_rm es = true.
+Proof.
+  induction es as [|e es IH]; simpl; auto. intros H. apply andb_prop in H. destruct H as [H1 H2].
+  destruct (IH H2) as (a & b & c & d). unfold quiet in H1.
+  apply andb_prop in H1. destruct H1 as [H1 h4]. apply andb_prop in H1. destruct H1 as [H1 h3].
+  apply andb_prop in H1. destruct H1 as [h1 h2]. rewrite h1, h2, h3, h4, a, b, c, d. auto.
+Qed.
+
+(* split a membership hypothesis over appends and conses, discarding the elements that differ *)
+Ltac splitin H :=
+  repeat (cbn [app] in H;
+          match type of H with
+          | In _ (_ ++ _) => apply in_app_or in H; destruct H as [H|H]
+          | In _ (_ :: _) => destruct H as [H|H]; [discriminate|]
+          | In _ [] => contradiction
+          | _ \/ _ => destruct H as [H|H]; [discriminate|]
+          | False => contradiction
+          end).
+
+Lemma claim_finalize_rm : forall w c tdel f es r,
+  claim_finalize w c tdel f = (es, r) -> In (ERmClaimFin true) es ->
+  exists pre, es = pre ++ [ERmClaimFin true] /\ forallb quiet pre = true /\
+    (c_registered c = true -> claim_nodes w c = []) /\
+    (c_pid c = true -> inst_absent (w_inst w) = true).
+Proof.
+  intros w c tdel f es r H Hin. unfold claim_finalize in H. cbv zeta in H.
+  destruct (negb (c_fin c)); [inversion H; subst; contradiction|].
+  match type of H with context[match c_annot c with _ => _ end] => idtac end.
+  set (A := match c_annot c, c_tgp c with
+            | ANone, Some g =>
+                match fails f SAnnot with
+                | Some KNotFound => ([EAnnot false (tdel + g)], None)
+                | Some KConflict => ([EAnnot false (tdel + g)], Some RRequeue)
+                | Some KServer => ([EAnnot false (tdel + g)], Some RErr)
+                | None => ([EAnnot true (tdel + g)], None)
+                end
+            | _, _ => ([], None)
+            end) in H.
+  assert (HA : forallb quiet (fst A) = true).
+  { unfold A. destruct (c_annot c); try reflexivity. destruct (c_tgp c); try reflexivity.
+    destruct (fails f SAnnot) as [[| |]|]; reflexivity. }
+  destruct A as [e1 stop1]. simpl in HA.
+  destruct stop1; [inversion H; subst; exfalso; apply (in_no_rm es); [apply quiet_forall; exact HA | exact Hin]|].
+  set (B := if c_registered c
+            then match fails f SListNodes with
+                 | Some _ => ([], Some RErr)
+                 | None =>
+                     let ns := claim_nodes w c in
+                     let '(e, hard) := delete_nodes f ns in
+                     if hard then (e, Some RErr) else match ns with [] => (e, None) | _ => (e, Some ROk) end
+                 end
+            else ([], None)) in H.
+  assert (HB : forallb no_rm (fst B) = true /\ (snd B = None -> fst B = [] /\ (c_registered c = true -> claim_nodes w c = []))).
+  { unfold B. destruct (c_registered c); [|simpl; split; auto; intros _; split; auto; discriminate].
+    destruct (fails f SListNodes); [simpl; split; auto; discriminate|]. cbv zeta.
+    pose proof (delete_nodes_no_rm f (claim_nodes w c)) as Hd.
+    destruct (delete_nodes f (claim_nodes w c)) as [e hard] eqn:Ed. simpl in Hd.
+    destruct hard; [simpl; split; auto; discriminate|].
+    destruct (claim_nodes w c) eqn:En; simpl; split; auto; try discriminate.
+    intros _. simpl in Ed. inversion Ed. auto. }
+  destruct B as [e2 stop2]. simpl in HB. destruct HB as [HB1 HB2].
+  assert (H12 : forallb no_rm (e1 ++ e2) = true).
+  { rewrite forallb_app, HB1. destruct (quiet_forall _ HA) as (_ & _ & _ & X). rewrite X. reflexivity. }
+  destruct stop2; [inversion H; subst; exfalso; eapply in_no_rm; eauto|].
+  destruct (HB2 eq_refl) as [-> Hreg]. rewrite app_nil_r in *.
+  assert (N1 : forallb no_rm e1 = true) by exact H12.
+  destruct (c_pid c) eqn:Epid.
+  - destruct (fails f SProvDelete).
+    { inversion H; subst. exfalso. splitin Hin; exact (in_no_rm _ N1 Hin). }
+    cbv zeta in H.
+    set (E := if c_term c then ([], None)
+              else match fails f SPatchStatus with
+                   | Some KNotFound => ([EStatus false (c_drained c) (c_vol c) true], Some ROk)
+                   | Some KConflict => ([EStatus false (c_drained c) (c_vol c) true], Some RRequeue)
+                   | Some KServer => ([EStatus false (c_drained c) (c_vol c) true], Some RErr)
+                   | None => ([EStatus true (c_drained c) (c_vol c) true], None)
+                   end) in H.
+    assert (HE : forallb quiet (fst E) = true).
+    { unfold E. destruct (c_term c); [reflexivity|]. destruct (fails f SPatchStatus) as [[| |]|]; reflexivity. }
+    destruct E as [e3 stop3]. simpl in HE.
+    assert (N3 : forallb no_rm e3 = true) by (apply quiet_forall; exact HE).
+    assert (Hq : forallb quiet ((e1 ++ [EProvDelete PNotFound]) ++ e3) = true).
+    { rewrite !forallb_app, HA, HE. reflexivity. }
+    destruct stop3.
+    { inversion H; subst. exfalso. splitin Hin; [exact (in_no_rm _ N1 Hin) | exact (in_no_rm _ N3 Hin)]. }
+    destruct (fst (prov_delete (w_inst w))) eqn:Epd.
+    + inversion H; subst. exfalso. splitin Hin; [exact (in_no_rm _ N1 Hin) | exact (in_no_rm _ N3 Hin)].
+    + destruct (rm_claim_fin f) as [e r'] eqn:Erm. inversion H; subst. clear H.
+      apply rm_claim_fin_shape in Erm.
+      exists ((e1 ++ [EProvDelete PNotFound]) ++ e3). split.
+      * destruct Erm as [-> | ->]; [simpl; rewrite <- !app_assoc; reflexivity|].
+        exfalso. splitin Hin; [exact (in_no_rm _ N1 Hin) | exact (in_no_rm _ N3 Hin)].
+      * split; [exact Hq|]. split; [exact Hreg|]. intros _.
+        destruct (w_inst w); simpl in *; try discriminate; reflexivity.
+    + inversion H; subst. exfalso. splitin Hin; [exact (in_no_rm _ N1 Hin) | exact (in_no_rm _ N3 Hin)].
+  - destruct (rm_claim_fin f) as [e r'] eqn:Erm. inversion H; subst. clear H.
+    apply rm_claim_fin_shape in Erm. exists e1. split.
+    + destruct Erm as [-> | ->]; [reflexivity|]. exfalso. splitin Hin; exact (in_no_rm _ N1 Hin).
+    + split; [exact HA|]. split; [exact Hreg|]. discriminate.
+Qed.
+
+Lemma claim_launch_no_rm : forall w c f es r k, claim_launch w c f = (es, r, k) -> forallb no_rm es = true.
+Proof.
+  intros w c f es r k H. unfold claim_launch in H. cbv zeta in H.
+  destruct (c_fin c); [|destruct (fails f SAddFin) as [[| |]|]]; simpl in H;
+    try (inversion H; reflexivity);
+    (destruct (c_pid c); [inversion H; reflexivity|]);
+    (destruct (w_cache w); simpl in H;
+      [|destruct (fails f SProvCreate); simpl in H; [inversion H; reflexivity|]]);
+    destruct (fails f SPatchMeta) as [[| |]|]; destruct (fails f SPatchStatusL) as [[| |]|]; inversion H; reflexivity.
+Qed.
+
+Lemma claim_reconcile_rm : forall w f es r k,
+  claim_reconcile w f = (es, r, k) -> In (ERmClaimFin true) es ->
+  exists c t pre, w_claim w = Some c /\ c_del c = Some t /\ es = pre ++ [ERmClaimFin true] /\
+    forallb quiet pre = true /\
+    (c_registered c = true -> claim_nodes w c = []) /\
+    (c_pid c = true -> inst_absent (w_inst w) = true).
+Proof.
+  intros w f es r k H Hin. unfold claim_reconcile in H.
+  destruct (w_claim w) as [c|] eqn:Ec; [|inversion H; subst; contradiction].
+  destruct (negb (c_managed c)); [inversion H; subst; contradiction|].
+  destruct (c_del c) as [t|] eqn:Ed.
+  - destruct (claim_finalize w c t f) as [e r'] eqn:Ef. inversion H; subst. clear H.
+    destruct (claim_finalize_rm _ _ _ _ _ _ Ef Hin) as (pre & Hes & Hq & Hr & Hp).
+    exists c, t, pre. repeat split; auto.
+  - exfalso. apply (in_no_rm es); [eapply claim_launch_no_rm; exact H | exact Hin].
+Qed.
+
+Lemma claim_instant : forall w c pre, w_claim w = Some c -> forallb quiet pre = true ->
+  exists c', w_claim (apply_effs w pre) = Some c' /\
+    c_registered c' = c_registered c /\ c_pid c' = c_pid c /\ c_del c' = c_del c /\ c_fin c' = c_fin c /\
+    w_nodes (apply_effs w pre) = w_nodes w /\ w_inst (apply_effs w pre) = w_inst w.
+Proof.
+  intros w c pre Hc Hq. destruct (quiet_forall _ Hq) as (Q1 & Q2 & Q3 & _).
+  pose proof (apply_effs_claim pre w Q1) as Hs. rewrite Hc in Hs.
+  destruct (w_claim (apply_effs w pre)) as [c'|]; simpl in Hs; [|contradiction].
+  destruct Hs as (a & b & d & e). exists c'. repeat split; auto.
+  - apply apply_effs_nodes. exact Q3.
+  - apply apply_effs_inst. exact Q2.
+Qed.
+
+(* the NodeClaim finalizer comes off only as the last write of a finalize, after the Nodes are gone if the claim
+   registered, and — when the claim recorded a provider id — after the provider answered NotFound *)
+Lemma claim_finalizer_nodes_gone_l : forall w f es r k,
+  claim_reconcile w f = (es, r, k) -> In (ERmClaimFin true) es ->
+  (exists pre, es = pre ++ [ERmClaimFin true]) /\
+  claim_nodes_gone (instant w es) /\
+  (exists c, w_claim w = Some c /\ (c_pid c = true -> inst_absent (w_inst (instant w es)) = true)).
+Proof.
+  intros w f es r k H Hin.
+  destruct (claim_reconcile_rm _ _ _ _ _ H Hin) as (c & t & pre & Hc & Hd & Hes & Hq & Hr & Hp).
+  subst es. rewrite instant_last.
+  destruct (claim_instant _ _ _ Hc Hq) as (c' & Hc' & e1 & e2 & e3 & e4 & Hn & Hi).
+  split; [exists pre; reflexivity|]. split.
+  - exists c'. split; [exact Hc'|]. intros Hreg. unfold claim_nodes in *. rewrite e2, Hn. apply Hr. congruence.
+  - exists c. split; [exact Hc|]. intros Hpid. rewrite Hi. exact (Hp Hpid).
+Qed.
+
+Lemma claim_finalizer_removed_only_if_partial_l : forall w f es r k,
+  launched_persisted w ->
+  claim_reconcile w f = (es, r, k) -> In (ERmClaimFin true) es ->
+  (exists pre, es = pre ++ [ERmClaimFin true]) /\ claim_fin_ok (instant w es).
+Proof.
+  intros w f es r k Hlp H Hin.
+  destruct (claim_finalizer_nodes_gone_l _ _ _ _ _ H Hin) as (Hpre & Hng & c & Hc & Hp).
+  split; [exact Hpre|]. split; [exact Hng|].
+  unfold claim_instance_gone. intros Hne.
+  destruct (claim_reconcile_rm _ _ _ _ _ H Hin) as (c0 & t & pre & Hc0 & _ & Hes & Hq & _ & _).
+  subst es. rewrite instant_last in *.
+  destruct (claim_instant _ _ _ Hc0 Hq) as (_ & _ & _ & _ & _ & _ & _ & Hi). rewrite Hi in *.
+  unfold launched_persisted, launched_persisted_b in Hlp. rewrite Hc in Hlp.
+  destruct (c_pid c) eqn:Ep.
+  - specialize (Hp eq_refl). destruct (w_inst w); simpl in Hp; try discriminate; [exfalso; apply Hne; reflexivity|reflexivity].
+  - rewrite andb_false_r, orb_false_r in Hlp. destruct (w_inst w); simpl in Hlp; try discriminate. exfalso. apply Hne. reflexivity.
+Qed.
+
+(* FINDING: Create succeeded, the status patch that records the provider id failed, the claim is deleted before the
+   next reconcile: finalize sees an empty provider id, skips the provider and removes the finalizer. *)
+Definition leak_w0 : world :=
+  W 1000 [] (Some (C true false None false false None ANone DNone VNone false)) [] [] INone false.
+Definition leak_ops : list op := [RClaim (Some (SPatchStatusL, KServer)); EnvDelClaim].
+
+Lemma claim_finalizer_removed_only_if_refuted_l :
+  launched_persisted leak_w0 /\
+  let w := run leak_w0 leak_ops in
+  exists es r k, claim_reconcile w None = (es, r, k) /\ In (ERmClaimFin true) es /\ ~ claim_fin_ok (instant w es).
+Proof.
+  split; [reflexivity|]. cbv zeta.
+  exists [ERmClaimFin true], ROk, true. split; [vm_compute; reflexivity|]. split; [left; reflexivity|].
+  intros H. apply claim_fin_ok_b_spec in H. vm_compute in H. discriminate.
+Qed.
+
+(* ------------------------------------------------------------------ no orphan: the invariant over histories *)
+
+Definition plain (e : eff) : bool :=
+  match e with ERmClaimFin true | EProvCreate true | EPersist true => false | _ => true end.
+Definition no_create (e : eff) : bool :=
+  match e with EProvCreate true | EPersist true => false | _ => true end.
+
+(* [b]: a claim object existed when the step began *)
+Definition G (b : bool) (w : world) : Prop :=
+  launched_persisted_b w = true /\ (b = true -> w_claim w = None -> inst_absent (w_inst w) = true).
+
+Lemma G_init : forall w, launched_persisted w -> G (is_some (w_claim w)) w.
+Proof. intros w H. split; [exact H|]. intros Hb Hn. rewrite Hn in Hb. discriminate. Qed.
+
+Lemma G_orphaned : forall w w', G (is_some (w_claim w)) w' -> orphaned w w' = false.
+Proof.
+  intros w w' [_ H]. unfold orphaned. destruct (is_some (w_claim w)); [|reflexivity].
+  destruct (w_claim w') eqn:E; [reflexivity|]. rewrite (H eq_refl eq_refl). reflexivity.
+Qed.
+
+Lemma plain_eff_G : forall e b w, plain e = true -> G b w -> G b (apply_eff w e).
+Proof.
+  intros e b w Hp [HJ HG]. unfold G, launched_persisted_b in *.
+  destruct e as [ok|a|i ok|a|ok d v t|i ok|ok t|i ok|ok|ok|ok|ok]; simpl in *;
+    try destruct ok; try destruct a; simpl in *; try discriminate; auto;
+    try (match goal with |- context[upd_node ?i ?g w] =>
+           destruct (upd_node_frame i g w) as (_&_&_&X&Y&_); rewrite X, Y; auto end; fail);
+    unfold upd_claim, set_inst, api_delete_claim in *; simpl in *;
+    destruct (w_claim w) as [c|]; simpl in *; auto;
+    try (destruct (w_inst w); simpl in *; auto; fail);
+    destruct (c_del c), (c_fin c), (c_pid c), (w_inst w); simpl in *;
+    split; auto; try discriminate; intros; try discriminate; auto.
+Qed.
+
+Lemma plain_effs_G : forall es b w, forallb plain es = true -> G b w -> G b (apply_effs w es).
+Proof.
+  induction es as [|e es IH]; intros b w H Hg; simpl in *; [exact Hg|].
+  apply andb_prop in H. destruct H as [H1 H2]. unfold apply_effs in *. simpl.
+  apply IH; [exact H2|]. apply plain_eff_G; assumption.
+Qed.
+
+Lemma quiet_plain : forall es, forallb quiet es = true -> forallb plain es = true.
+Proof.
+  induction es as [|e es IH]; simpl; auto. intros H. apply andb_prop in H. destruct H as [H1 H2].
+  rewrite (IH H2), andb_true_r. unfold quiet in H1. destruct e as [ok|a|i ok|a|ok d v t|i ok|ok t|i ok|ok|ok|ok|ok];
+    try destruct ok; try destruct a; simpl in *; auto.
+Qed.
+
+Lemma no_create_no_rm_plain : forall es, forallb no_create es = true -> forallb no_rm es = true -> forallb plain es = true.
+Proof.
+  induction es as [|e es IH]; simpl; auto. intros H1 H2.
+  apply andb_prop in H1. destruct H1 as [a1 a2]. apply andb_prop in H2. destruct H2 as [b1 b2].
+  rewrite (IH a2 b2), andb_true_r. destruct e as [ok|a|i ok|a|ok d v t|i ok|ok t|i ok|ok|ok|ok|ok];
+    try destruct ok; try destruct a; simpl in *; auto.
+Qed.
+
+Lemma not_no_rm_in : forall es, forallb no_rm es = false -> In (ERmClaimFin true) es.
+Proof.
+  induction es as [|e es IH]; simpl; [discriminate|]. intros H. apply andb_false_iff in H. destruct H as [H|H].
+  - left. destruct e as [ok|a|i ok|a|ok d v t|i ok|ok t|i ok|ok|ok|ok|ok]; try destruct ok; simpl in H; try discriminate. reflexivity.
+  - right. apply IH. exact H.
+Qed.
+
+(* the node controller never creates instances, persists provider ids or touches the claim finalizer *)
+Lemma await_drain_plain : forall hc i w f dl cs, forallb plain (a_effs (await_drain hc i w f dl cs)) = true.
+Proof.
+  intros hc i w f dl [[d v] t]. unfold await_drain. cbv zeta.
+  destruct (fails f SListPods); [reflexivity|]. destruct (negb (drain_done i w)); [reflexivity|].
+  destruct (min_drain_wait hc (w_now w) _); [reflexivity|].
+  unfold await_volumes. destruct (fails f SListVAs); [reflexivity|]. destruct (va_lookup_err i w f); [reflexivity|].
+  assert (X : forall cs', forallb plain (a_effs (await_instance hc f cs' (w_inst w))) = true).
+  { intros [[d' v'] t']. unfold await_instance. destruct hc; simpl; [|reflexivity].
+    destruct (fails f SProvDelete); [reflexivity|]. destruct (w_inst w); reflexivity. }
+  destruct (filter _ _); [apply X|]. destruct (elapsed (w_now w) dl); [apply X|reflexivity].
+Qed.
+
+Lemma rm_node_fin_plain : forall i f, forallb plain (fst (rm_node_fin i f)) = true.
+Proof. intros i f. unfold rm_node_fin. destruct (fails f SRmNodeFin) as [[| |]|]; reflexivity. Qed.
+
+Lemma node_tail_plain : forall w i f oc dl cgone stale, forallb plain (fst (node_tail w i f oc dl cgone stale)) = true.
+Proof.
+  intros w i f oc dl cgone stale. unfold node_tail. cbv zeta.
+  match goal with |- context[await_drain ?hc i w f dl ?cs] =>
+    pose proof (await_drain_plain hc i w f dl cs) as Ha; set (a := await_drain hc i w f dl cs) in * end.
+  assert (H4 : forall X : list eff * option res,
+     X = (if is_some oc && negb (conds_eqb (match oc with Some c => (c_drained c, c_vol c, c_term c) | None => (DNone, VNone, false) end) (a_conds a))
+          then let '(d, v, t) := a_conds a in
+               match status_patch_ans f cgone stale with
+               | PatchOk => ([EStatus true d v t], None)
+               | PatchNotFound => ([EStatus false d v t], None)
+               | PatchConflict => ([EStatus false d v t], Some RRequeue)
+               | PatchOther => ([EStatus false d v t], Some RErr)
+               end
+          else ([], None)) -> forallb plain (fst X) = true).
+  { intros X ->. destruct (is_some oc && negb _); [|reflexivity].
+    destruct (a_conds a) as [[d v] t]. destruct (status_patch_ans f cgone stale); reflexivity. }
+  match goal with |- context[let '(e4, stop4) := ?X in _] => specialize (H4 X eq_refl); destruct X as [e4 stop4] end.
+  simpl in H4. destruct stop4; simpl; [rewrite forallb_app, Ha, H4; reflexivity|].
+  destruct (a_res a); simpl; try (rewrite forallb_app, Ha, H4; reflexivity).
+  pose proof (rm_node_fin_plain i f) as Hr. destruct (rm_node_fin i f) as [e r]. simpl in *.
+  rewrite !forallb_app, Ha, H4, Hr. reflexivity.
+Qed.
+
+Lemma node_reconcile_plain : forall w i f, forallb plain (fst (node_reconcile w i f)) = true.
+Proof.
+  intros w i f. unfold node_reconcile. destruct (get_node i (w_nodes w)) as [n|]; [|reflexivity].
+  destruct (n_del n && n_fin n && n_managed n); [|reflexivity].
+  unfold node_finalize. cbv zeta. destruct (fails f SListClaims); [reflexivity|].
+  assert (H1 : forallb plain (fst (fst (fst (del_claim_step (visible_claim w) f)))) = true).
+  { unfold del_claim_step. destruct (visible_claim w) as [c|]; [|reflexivity].
+    destruct (is_some (c_del c)); [reflexivity|]. destruct (fails f SDelClaim) as [[| |]|]; reflexivity. }
+  destruct (del_claim_step (visible_claim w) f) as [[[e1 stop1] stale] cgone]. simpl in H1.
+  destruct stop1; [exact H1|].
+  assert (H2 : forallb plain (fst (not_ready_step n (w_inst w) f)) = true).
+  { unfold not_ready_step. destruct (n_ready n); [reflexivity|]. destruct (fails f SProvGet); [reflexivity|].
+    destruct (prov_get (w_inst w)); reflexivity. }
+  destruct (not_ready_step n (w_inst w) f) as [e2 short]. simpl in H2.
+  destruct short as [[|]|].
+  - pose proof (rm_node_fin_plain (n_id n) f) as Hr. destruct (rm_node_fin (n_id n) f) as [e r]. simpl in *.
+    rewrite !forallb_app, H1, H2, Hr. reflexivity.
+  - simpl. rewrite forallb_app, H1, H2. reflexivity.
+  - destruct (term_time (visible_claim w)) as [dl|]; [|simpl; rewrite forallb_app, H1, H2; reflexivity].
+    assert (H3 : forallb plain (fst (taint_step n f)) = true).
+    { unfold taint_step. destruct (n_taint n && n_lbl n); [reflexivity|]. destruct (fails f STaint) as [[| |]|]; reflexivity. }
+    destruct (taint_step n f) as [e3 stop3]. simpl in H3.
+    destruct stop3; [simpl; rewrite !forallb_app, H1, H2, H3; reflexivity|].
+    pose proof (node_tail_plain w (n_id n) f (visible_claim w) dl cgone stale) as Ht.
+    destruct (node_tail w (n_id n) f (visible_claim w) dl cgone stale) as [et r]. simpl in *.
+    rewrite !forallb_app, H1, H2, H3, Ht. reflexivity.
+Qed.
+
+Lemma delete_nodes_no_create : forall f ns, forallb no_create (fst (delete_nodes f ns)) = true.
+Proof.
+  intros f ns. induction ns as [|n ns IH]; simpl; [reflexivity|].
+  destruct (n_del n); [exact IH|].
+  destruct (fails f (SDelNode (n_id n))) as [[| |]|]; try reflexivity;
+    destruct (delete_nodes f ns) as [e b]; simpl in *; exact IH.
+Qed.
+
+Lemma claim_finalize_no_create : forall w c t f, forallb no_create (fst (claim_finalize w c t f)) = true.
+Proof.
+  intros w c t f. unfold claim_finalize. cbv zeta. destruct (negb (c_fin c)); [reflexivity|].
+  assert (HA : forall X : list eff * option res,
+    X = (match c_annot c, c_tgp c with
+         | ANone, Some g =>
+             match fails f SAnnot with
+             | Some KNotFound => ([EAnnot false (t + g)], None)
+             | Some KConflict => ([EAnnot false (t + g)], Some RRequeue)
+             | Some KServer => ([EAnnot false (t + g)], Some RErr)
+             | None => ([EAnnot true (t + g)], None)
+             end
+         | _, _ => ([], None)
+         end) -> forallb no_create (fst X) = true).
+  { intros X ->. destruct (c_annot c); try reflexivity. destruct (c_tgp c); try reflexivity.
+    destruct (fails f SAnnot) as [[| |]|]; reflexivity. }
+  match goal with |- context[let '(e1, stop1) := ?X in _] => specialize (HA X eq_refl); destruct X as [e1 stop1] end.
+  simpl in HA. destruct stop1; [exact HA|].
+  assert (HB : forall X : list eff * option res,
+    X = (if c_registered c
+         then match fails f SListNodes with
+              | Some _ => ([], Some RErr)
+              | None =>
+                  let ns := claim_nodes w c in
+                  let '(e, hard) := delete_nodes f ns in
+                  if hard then (e, Some RErr) else match ns with [] => (e, None) | _ => (e, Some ROk) end
+              end
+         else ([], None)) -> forallb no_create (fst X) = true).
+  { intros X ->. destruct (c_registered c); [|reflexivity]. destruct (fails f SListNodes); [reflexivity|]. cbv zeta.
+    pose proof (delete_nodes_no_create f (claim_nodes w c)) as Hd.
+    destruct (delete_nodes f (claim_nodes w c)) as [e hard]. simpl in Hd.
+    destruct hard; [exact Hd|]. destruct (claim_nodes w c); exact Hd. }
+  match goal with |- context[let '(e2, stop2) := ?X in _] => specialize (HB X eq_refl); destruct X as [e2 stop2] end.
+  simpl in HB. destruct stop2; [simpl; rewrite forallb_app, HA, HB; reflexivity|].
+  pose proof (fun X => proj1 (forallb_forall no_create (fst (rm_claim_fin f))) X) as _.
+  assert (HR : forallb no_create (fst (rm_claim_fin f)) = true).
+  { unfold rm_claim_fin. destruct (fails f SRmClaimFin) as [[| |]|]; reflexivity. }
+  destruct (c_pid c).
+  - destruct (fails f SProvDelete); [simpl; rewrite !forallb_app, HA, HB; reflexivity|].
+    assert (HE : forall X : list eff * option res,
+      X = (if c_term c then ([], None)
+           else match fails f SPatchStatus with
+                | Some KNotFound => ([EStatus false (c_drained c) (c_vol c) true], Some ROk)
+                | Some KConflict => ([EStatus false (c_drained c) (c_vol c) true], Some RRequeue)
+                | Some KServer => ([EStatus false (c_drained c) (c_vol c) true], Some RErr)
+                | None => ([EStatus true (c_drained c) (c_vol c) true], None)
+                end) -> forallb no_create (fst X) = true).
+    { intros X ->. destruct (c_term c); [reflexivity|]. destruct (fails f SPatchStatus) as [[| |]|]; reflexivity. }
+    match goal with |- context[let '(e3, stop3) := ?X in _] => specialize (HE X eq_refl); destruct X as [e3 stop3] end.
+    simpl in HE.
+    assert (HP : forallb no_create [EProvDelete (fst (prov_delete (w_inst w)))] = true) by (destruct (w_inst w); reflexivity).
+    destruct stop3; [simpl fst; rewrite !forallb_app, HA, HB, HP, HE; reflexivity|].
+    destruct (fst (prov_delete (w_inst w))) eqn:Ep; try (simpl fst; rewrite !forallb_app, HA, HB, HE; reflexivity).
+    destruct (rm_claim_fin f) as [e r]. simpl in *. rewrite !forallb_app, HA, HB, HE, HR. reflexivity.
+  - destruct (rm_claim_fin f) as [e r]. simpl in *. rewrite !forallb_app, HA, HB, HR. reflexivity.
+Qed.
+
+Lemma G_set_inst : forall b w k, G b w -> G b (set_inst (w_inst w) k w).
+Proof. intros b w k H. exact H. Qed.
+
+Lemma persists_faults : forall f, persists (RClaim f) = true -> fails f SPatchMeta = None /\ fails f SPatchStatusL = None.
+Proof.
+  intros [[s k]|] H; [|split; reflexivity]. destruct s; simpl in *; try discriminate; split; reflexivity.
+Qed.
+
+Lemma launch_G : forall w c f, w_claim w = Some c -> c_del c = None -> launched_persisted w ->
+  persists (RClaim f) = true ->
+  G true (fst (step w (RClaim f))).
+Proof.
+  intros w c f Hc Hd HJ Hp. destruct (persists_faults f Hp) as [F1 F2].
+  unfold launched_persisted, launched_persisted_b in HJ. rewrite Hc in HJ.
+  destruct w as [now ns cl ps vs s k]. simpl in *. subst cl.
+  destruct c as [m fin del pid reg tgp an dr vo te]. simpl in *. subst del.
+  unfold step, G, launched_persisted_b. simpl. unfold claim_reconcile. simpl.
+  destruct m; simpl; [|split; [exact HJ|discriminate]].
+  unfold claim_launch. cbv zeta. simpl. rewrite F1, F2.
+  destruct fin, pid, k, s; simpl in *; try discriminate;
+    try (destruct (fails f SAddFin) as [[| |]|]; simpl);
+    try (destruct (fails f SProvCreate); simpl);
+    split; auto; discriminate.
+Qed.
+
+Lemma env_G : forall w o, is_env o = true -> launched_persisted w -> G (is_some (w_claim w)) (env_step w o).
+Proof.
+  intros w o He HJ. unfold launched_persisted, launched_persisted_b in HJ. unfold G, launched_persisted_b.
+  destruct o; simpl in He; try discriminate; simpl;
+    try (match goal with |- context[upd_node ?i ?g w] =>
+           destruct (upd_node_frame i g w) as (_&_&_&X&Y&_); rewrite X, Y end;
+         split; [exact HJ|]; intros Hb Hn; rewrite Hn in Hb; discriminate);
+    try (unfold upd_pods; simpl; split; [exact HJ|]; intros Hb Hn; rewrite Hn in Hb; discriminate);
+    try (destruct (existsb _ (w_pods w)); unfold upd_pods; simpl; split; try exact HJ; intros Hb Hn; rewrite Hn in Hb; discriminate);
+    try (split; [exact HJ|]; intros Hb Hn; rewrite Hn in Hb; discriminate);
+    unfold upd_claim, set_inst, api_delete_claim; simpl;
+    destruct (w_claim w) as [c|]; simpl in *; try (split; [reflexivity|discriminate]);
+    try (destruct (c_del c), (c_fin c), (c_pid c), (w_inst w); simpl in *; split; auto; try discriminate; intros; try discriminate; auto; fail).
+  - (* EnvRegister *)
+    destruct (c_pid c && negb match w_nodes w with [] => true | _ :: _ => false end); simpl; split; auto; discriminate.
+Qed.
+
+Lemma step_G : forall w o, launched_persisted w -> persists o = true -> G (is_some (w_claim w)) (fst (step w o)).
+Proof.
+  intros w o HJ Hp. unfold step. destruct (is_env o) eqn:He; [simpl; apply env_G; assumption|].
+  destruct o as [i f|f| | | | | | | | | | | |]; simpl in He; try discriminate.
+  - (* node termination *)
+    simpl. pose proof (node_reconcile_plain w i f) as Hpl. destruct (node_reconcile w i f) as [es r]. simpl in *.
+    apply G_set_inst. apply plain_effs_G; [exact Hpl | apply G_init; exact HJ].
+  - (* lifecycle *)
+    destruct (w_claim w) as [c|] eqn:Ec.
+    2:{ simpl. unfold claim_reconcile. rewrite Ec. simpl. split; [exact HJ|discriminate]. }
+    destruct (c_del c) as [t|] eqn:Ed.
+    2:{ simpl is_some. pose proof (launch_G w c f Ec Ed HJ Hp) as X. unfold step in X. simpl in X. exact X. }
+    simpl. unfold claim_reconcile. rewrite Ec. destruct (negb (c_managed c)).
+    { simpl. split; [exact HJ|]. unfold set_inst. simpl. rewrite Ec. discriminate. }
+    rewrite Ed. pose proof (claim_finalize_no_create w c t f) as Hnc.
+    destruct (claim_finalize w c t f) as [es r] eqn:Ef. simpl in Hnc. apply G_set_inst.
+    destruct (forallb no_rm es) eqn:Hrm.
+    + apply plain_effs_G; [apply no_create_no_rm_plain; assumption|]. pose proof (G_init w HJ) as X. rewrite Ec in X. exact X.
+    + apply not_no_rm_in in Hrm.
+      destruct (claim_finalize_rm _ _ _ _ _ _ Ef Hrm) as (pre & Hes & Hq & _ & Hpid). subst es.
+      rewrite apply_effs_app.
+      destruct (claim_instant _ _ _ Ec Hq) as (c' & Hc' & _ & e2 & e3 & _ & _ & Hi).
+      assert (Gi : G true (apply_effs w pre)).
+      { apply plain_effs_G; [apply quiet_plain; exact Hq|]. pose proof (G_init w HJ) as X. rewrite Ec in X. exact X. }
+      unfold apply_effs at 1. simpl. unfold upd_claim. rewrite Hc'. rewrite e3, Ed. simpl.
+      unfold G, launched_persisted_b. simpl. split; [reflexivity|]. intros _ _. rewrite Hi.
+      destruct (c_pid c) eqn:Ep; [exact (Hpid eq_refl)|].
+      unfold launched_persisted, launched_persisted_b in HJ. rewrite Ec, Ep in HJ.
+      rewrite andb_false_r, orb_false_r in HJ. destruct (w_inst w); simpl in *; try discriminate; reflexivity.
+Qed.
+
+Lemma run_snoc : forall w ops o, run w (ops ++ [o]) = fst (step (run w ops) o).
+Proof. intros. unfold run. rewrite fold_left_app. reflexivity. Qed.
+
+Lemma run_persisted : forall ops w, launched_persisted w -> forallb persists ops = true -> launched_persisted (run w ops).
+Proof.
+  induction ops as [|o ops IH]; intros w HJ Hp; simpl in *; [exact HJ|].
+  apply andb_prop in Hp. destruct Hp as [H1 H2]. apply IH; [|exact H2]. exact (proj1 (step_G w o HJ H1)).
+Qed.
+
+(* a completed deletion never orphans the instance, as long as every launch persisted what it created *)
+Lemma no_orphan_partial_l : forall w0 ops o,
+  launched_persisted w0 -> forallb persists (ops ++ [o]) = true ->
+  orphaned (run w0 ops) (run w0 (ops ++ [o])) = false.
+Proof.
+  intros w0 ops o HJ Hp. rewrite forallb_app in Hp. apply andb_prop in Hp. destruct Hp as [H1 H2].
+  simpl in H2. rewrite andb_true_r in H2. rewrite run_snoc. apply G_orphaned. apply step_G; [|exact H2].
+  apply run_persisted; assumption.
+Qed.
+
+Lemma no_orphan_refuted_l :
+  launched_persisted leak_w0 /\
+  orphaned (run leak_w0 leak_ops) (run leak_w0 (leak_ops ++ [RClaim None])) = true.
+Proof. split; vm_compute; reflexivity. Qed.
+
+(* non-vacuity: a complete happy path — both finalizers come off, in order, and the instance is gone *)
+Definition happy_w0 : world :=
+  W 1000 [N 0 true true false false false true]
+    (Some (C true true None true true (Some 30) ANone DNone VNone false))
+    [P 0 0 false false false None [1]] [V 0 0 (Some 1)] IRunning false.
+Definition happy_ops : list op :=
+  [EnvDelClaim; RClaim None; RNode 0 None; EnvPodTerm 0; EnvTick 5; RNode 0 None; EnvPodGone 0; RNode 0 None;
+   EnvVAGone 0; RNode 0 None; EnvInstGone; RNode 0 None; RClaim None].
+
+Lemma happy_path :
+  launched_persisted happy_w0 /\
+  w_nodes (run happy_w0 happy_ops) = [] /\ w_claim (run happy_w0 happy_ops) = None /\
+  w_inst (run happy_w0 happy_ops) = IGone /\
+  snd (step (run happy_w0 (firstn 11 happy_ops)) (RNode 0 None)) = ([EProvDelete PNotFound; ERmNodeFin 0 true], ROk) /\
+  snd (step (run happy_w0 (firstn 12 happy_ops)) (RClaim None)) = ([EProvDelete PNotFound; ERmClaimFin true], ROk).
+Proof. vm_compute. repeat split; reflexivity. Qed.
